@@ -130,6 +130,31 @@ def exBusy : St :=
 example : Reachable exBusy := ⟨3, true, _, _, rfl⟩
 example : isDone exBusy.closing = true ∧ tasks exBusy = 0 ∧ exBusy.wopen = false ∧ exBusy.now = 20000 ∧ exBusy.nextTid = 2 := by decide
 
+/-! ### a pending open as a move of the machine -/
+
+/-- **`done_clean` with opens that complete at any moment** (`done_clean_open`): add to the machine's events the move "an
+`_open_connection` call started earlier completes now - with a transport, or by raising" (`Conn.openDone`; `close()` may
+fall between the start of a call and its completion, in the join or before).  Still: whenever close() has returned the
+connection is clean.  (What seeded C12-m13 breaks: without the first `cancel_tasks()` the attempt of the connection's
+retry task survives `closeEv` and `U`/`J` no longer hold.)  The window inside `shutdownRun` stays outside: `late_open_window`. -/
+theorem done_clean_open {s : St} (hs : Reach1 s) (hd : isDone s.closing = true) : Clean s :=
+  clean_of_doneok (hs.doneok hd)
+
+/-- non-vacuity: close() between the start of the retry task's open and its success - the first `cancel_tasks()` takes the
+attempt away, the late success finds nobody; and an attempt of the loss handler that succeeds while close() waits in the
+join (the protocol is alive again, requests drain, then everything is taken apart) -/
+example :
+    let s1 := run1 (init 3 true [.ok .ok .ok, .err, .hang])
+      [.inl .connect, .inl .prodStart, .inl .readFault, .inl .lostRun, .inl (.advance 20000), .inl (.tick .backoffEnd),
+       .inl .close, .inr (.ok .ok .ok), .inl .shutdownRun]
+    isDone s1.closing = true ∧ tasks s1 = 0 ∧ s1.nextTid = 1 := by decide
+
+example :
+    let s2 := run1 (init 3 true [.ok .ok .ok, .hang])
+      [.inl .connect, .inl .prodStart, .inl (.enq 1), .inl .readFault, .inl .lostRun, .inl .close, .inr (.ok .ok .ok),
+       .inl .prodStart, .inl (.feed .foreign), .inl .shutdownRun]
+    isDone s2.closing = true ∧ tasks s2 = 0 ∧ s2.nextTid = 2 ∧ s2.wopen = false ∧ s2.writeQ = [] := by decide
+
 /-! ### the window inside `shutdownRun` (report W5b-defect-1) -/
 
 /-- close() waits in `Queues.join` (behind a slow subscriber) when the back-off of the failed first reconnect attempt ends:
